@@ -4,12 +4,12 @@ CONSTANTS MaxUpdates
 VARIABLES nupd
 vars == <<cvars, nupd>>
 Init == CInit /\ nupd = 0
-RouteUpdateT(S) == nupd < MaxUpdates /\ nupd' = nupd + 1 /\ RouteUpdate(S)
+RouteUpdateT(m) == nupd < MaxUpdates /\ nupd' = nupd + 1 /\ RouteUpdate(m)
 ReconcileT == Reconcile /\ UNCHANGED nupd
 SelectT(i, c) == Select(i, c) /\ UNCHANGED nupd
 CommitT(i) == Commit(i) /\ UNCHANGED nupd
 CommitAgainT(i) == CommitAgain(i) /\ UNCHANGED nupd
-Next == \/ \E S \in SUBSET Clusters : RouteUpdateT(S)
+Next == \/ \E m \in [Clusters -> 0..MaxMult] : RouteUpdateT(m)
         \/ ReconcileT
         \/ \E i \in RPCs : CommitT(i) \/ CommitAgainT(i) \/ \E c \in Clusters : SelectT(i, c)
 ====
